@@ -225,8 +225,13 @@ int main(int argc, char** argv) {
     if (!stop) st.exhaustive_enum = true;
   } else if (mode == "pbt") {
     bool ok = rc::check(std::string(PROPERTY), [&]() {
-      // length uniform in 0..LMAX; elements are drawn at the nominal size so that all 8 bits are uniform
-      const std::vector<uint8_t> b = *rc::gen::resize(LMAX, rc::gen::container<std::vector<uint8_t>>(rc::gen::resize(rc::kNominalSize, rc::gen::arbitrary<uint8_t>())));
+      // three out of four byte strings have the full length LMAX (so that long decodings are not starved), the rest a length
+      // uniform in 0..LMAX (short strings decode to the simplest cases); elements are drawn at the nominal size so that all 8
+      // bits are uniform
+      const auto elem = rc::gen::resize(rc::kNominalSize, rc::gen::arbitrary<uint8_t>());
+      const std::vector<uint8_t> b = *rc::gen::weightedOneOf<std::vector<uint8_t>>({
+          {3, rc::gen::container<std::vector<uint8_t>>((std::size_t)LMAX, elem)},
+          {1, rc::gen::resize(LMAX, rc::gen::container<std::vector<uint8_t>>(elem))}});
       // shrinking budget: once a failure is in hand, at most 4000 further evaluations or 20 s are spent on minimising it;
       // afterwards every candidate is declared passing, which ends rapidcheck's shrink search with the best case so far
       if (have_fail) {
